@@ -97,3 +97,27 @@ def sugar(r, nargs):
 
 def style(r):
     return 0 if r.random() < 0.3 else r.randrange(1, 2 ** 31)
+
+
+def reentry_specs(r, names):
+    """What the host function re(i) does when a program calls it: the catalogue is part of the world. `names`: the
+    world's name -> spec mapping (numbers and lists among them are rebound / mutated by some of the nested programs)."""
+    nums = [k for k, v in names.items() if (isinstance(v, int) and not isinstance(v, bool)) or (isinstance(v, dict) and 'd' in v)]
+    lists = [k for k, v in names.items() if isinstance(v, list)]
+    specs = [{'api': 'eval', 'names': 'fresh', 'prog': ['bin', '+', ['num', '1'], ['num', '1']], 'ret': 'num'},
+             {'api': 'eval', 'names': 'same', 'prog': ['bin', '+', ['name', 'undefined_q'], ['num', '1']], 'ret': 'str'},
+             {'api': 'parse', 'prog': ['block', [['assign', 'pp', ['list', [['num', '1'], ['call', 'len', [['list', []]], 'plain']]]], ['name', 'pp']]], 'ret': 'str'},
+             {'api': 'list_names', 'prog': ['call', 'ff', [['name', 'aa'], ['list', [['name', 'bb'], ['dict', [[['str', 'k'], ['name', 'cc']]]]]]], 'plain'],
+              'consume': r.choice([1, 2, None]), 'ret': 'list'},
+             {'api': 'eval', 'names': 'same', 'prog': ['block', [['assign', 'hh', ['lambda', ['v'], ['bin', '+', ['name', 'v'], ['num', '1']]]], ['num', '3']]], 'ret': 'num'}]
+    if nums:
+        x = r.choice(nums)
+        specs.append({'api': 'eval', 'names': 'same', 'prog': ['block', [['assign', x, ['num', str(r.choice([7, 10, 0]))]], ['num', '2']]], 'ret': 'num', 'rebinds': x})
+        specs.append({'api': 'eval', 'names': 'same', 'prog': ['block', [['short', x, '+=', ['num', '1']], ['name', x]]], 'ret': 'num', 'rebinds': x})
+    else:
+        specs.append({'api': 'eval', 'names': 'same', 'prog': ['block', [['assign', 'nn', ['num', '5']], ['num', '2']]], 'ret': 'num', 'rebinds': 'nn'})
+    if lists:
+        l = r.choice(lists)
+        specs.append({'api': 'eval', 'names': 'same', 'prog': ['block', [['call', 'push', [['name', l], ['num', '9']], 'plain'], ['num', '1']]], 'ret': 'num', 'mutates': l})
+    r.shuffle(specs)
+    return specs
